@@ -207,7 +207,7 @@ class Axis(GetSetDelAttrMixin, AbstractAxis):
         -------
         subaxis : Axis instance
         """
-        values = self._values.take(indices, mode=mode)
+        values = self.values.take(indices, mode=mode)
         return Axis(values, self.name, tol=self.tol, **self.attrs)
 
 
